@@ -260,6 +260,10 @@ func verifHdrRequest(sc *verifHdrScn, rid, host string, rnd *rand.Rand) ([]byte,
 			}
 			named = append(named, [2]string{verifHdrCase(h.Name, variant), val})
 		}
+		if ln == "connection" {
+			// the header the Connection line nominates (the specification leaves its fate open)
+			named = append(named, [2]string{"X-Verif-Nominated", "nom-" + rid})
+		}
 	}
 	pad := verifHdrPadding(rnd, sc.Pad, rid)
 	// the named lines are spread between the padding lines, keeping their own order (stable merge:
@@ -421,6 +425,8 @@ func TestVerif_Headers(t *testing.T) {
 			return
 		}
 		defer stk.Close()
+		var ridMu sync.Mutex
+		earlier := map[string]bool{} // request ids of finished scenarios of this stack
 		answer := verifHdrOpenAIAnswer
 		if first.Path == "passthrough" {
 			answer = verifHdrAnthropicAnswer
@@ -428,7 +434,14 @@ func TestVerif_Headers(t *testing.T) {
 		for bi, be := range stk.backends {
 			bi, be := bi, be
 			be.OnAttempt = func(r *zzverif.Recv) zzverif.Plan {
-				emit("BackendRecv", "r", r.ReqID, "e", be.Name, "a", r.Attempt, "target", r.Target, "lines", verifHdrParse(r.RawHeader))
+				ev := "BackendRecv"
+				ridMu.Lock()
+				if earlier[r.ReqID] {
+					// a straggler of a request whose client has already given up: recorded, not attributed
+					ev = "Stale"
+				}
+				ridMu.Unlock()
+				emit(ev, "r", r.ReqID, "e", be.Name, "a", r.Attempt, "target", r.Target, "lines", verifHdrParse(r.RawHeader))
 				if bi == 0 && first.Path == "failover_reset" {
 					return zzverif.Plan{Kind: "reset_pre"}
 				}
@@ -458,6 +471,9 @@ func TestVerif_Headers(t *testing.T) {
 			emit("ClientSend", "r", rid, "lines", sent)
 			res := verifHdrDo(stk.addr, req)
 			emit("ClientDone", "r", rid, "st", res.Status, "mode", res.Mode, "err", res.Err, "health", stk.statuses())
+			ridMu.Lock()
+			earlier[rid] = true
+			ridMu.Unlock()
 			done++
 		}
 	})
